@@ -132,7 +132,7 @@ INFO = {
         text="TLC checks the flag-resolution sequence (since, end, min(end, now), start; default and explicit step) against the "
              "declarative Resolve/StepDenote/DefaultStep over a grid of instants 2001-2200 on the digit-count and 2^31 boundaries, the four "
              "spellings, all presence patterns and malformed classes; every case and random ones are executed by the real parseTimeRange / "
-             "parseStep through an overlay test with an injected clock and TLC validates each recorded resolution.",
+             "parseStep through an overlay test with an injected clock and TLC validates each recorded resolution. A second stage executes the composed specification (System.tla: flags -> window -> container selection -> merged frames -> pipeline -> limit -> rendering) through the plugin's own cobra command over a fake Docker CLI and lets TLC recognise the printed bytes (Trace_System).",
         note="Wide integers as <<hi, lo, ns>> triples; RFC3339 rendering trusted to time.Format; sub-millisecond fractional digits left open.",
         ref="6/C16"),
     "C15": dict(
